@@ -33,8 +33,13 @@ def extract():
     # --- _load_base_structures: does the first scan rewind when no 'M' line exists?
     f = _func(_parse("lib_guesser/grammar_io.py"), "_load_base_structures")
     scans = []
+    # the flag is the THIRD parameter, whatever it is called (harness/translate_loader.py binds the
+    # parameters by position too, so a renamed parameter is not an alarm)
+    if len(f.args.args) != 4:
+        raise ExtractError("_load_base_structures: expected four parameters")
+    flag = f.args.args[2].arg
     for n in ast.walk(f):
-        if isinstance(n, ast.If) and isinstance(n.test, ast.Name) and n.test.id == "skip_brute":
+        if isinstance(n, ast.If) and isinstance(n.test, ast.Name) and n.test.id == flag:
             scans.append(n)
     if len(scans) != 1:
         raise ExtractError("_load_base_structures: expected exactly one `if skip_brute:` block")
